@@ -357,13 +357,15 @@ func SpecSetKiOK(store *HStore, ki *KeyInfo) bool {
 // SpecStoreOK: the bucket table is set up (exported for contracts in package gobeansdb)
 func SpecStoreOK(store *HStore) bool { return storeOK(store) }
 
-// a path key is at most 16 hex digits (precondition of Prepare); whatever the digits are, looking
-// the record up must not crash: a path that does not parse, or is shorter than the bucket prefix,
-// names no bucket
+// a record by key hash: the path must be a full key hash (16 hex digits) — the tree lookup walks
+// every digit down to the leaf (HTree.getLeaf: len(KeyPath) >= depth+height-1), so a shorter path
+// that names a bucket would index past its end. Both callers (the '@@' key of StorageClient.Get, the
+// web handler handleKeyhash) are checked against this. Whatever the 16 characters are, looking the
+// record up must not crash: a path that does not parse names no bucket.
 //@ func (store *HStore) GetRecordByKeyHash
 //@   props C11
 //@   ints bv
-//@   requires ki != nil && storeOK(store) && (ki.KeyIsPath ==> len(ki.StringKey) <= 16)
+//@   requires ki != nil && storeOK(store) && (ki.KeyIsPath ==> len(ki.StringKey) == 16)
 //@   modifies *
 
 // a directory listing: same precondition on the path length
